@@ -5,6 +5,7 @@ package adjRIBOut
 
 import (
 	"fmt"
+	"os"
 	"runtime/debug"
 	"sort"
 	"strings"
@@ -36,6 +37,7 @@ type zvoView struct {
 	Origin     uint8
 	OTC        uint32
 	ASPath     string
+	ASFlat     string // AS_PATH without empty segments ("" = empty path)
 	ASPathLen  uint16
 	Cluster    string
 	Comms      string
@@ -85,11 +87,14 @@ func zvoViewOf(p *route.Path) zvoView {
 		v.EBGP, v.Atomic, v.Origin, v.OTC = a.EBGP, a.AtomicAggregate, a.Origin, a.OnlyToCustomer
 	}
 	if b.ASPath != nil {
-		var sb strings.Builder
+		var sb, fl strings.Builder
 		for _, seg := range *b.ASPath {
 			fmt.Fprintf(&sb, "t%d%s", seg.Type, zvoU32s(seg.ASNs))
+			if len(seg.ASNs) > 0 {
+				fmt.Fprintf(&fl, "t%d%s", seg.Type, zvoU32s(seg.ASNs))
+			}
 		}
-		v.ASPath = "{" + sb.String() + "}"
+		v.ASPath, v.ASFlat = "{"+sb.String()+"}", fl.String()
 	}
 	v.ASPathLen = b.ASPathLen
 	if b.ClusterList != nil {
@@ -185,7 +190,11 @@ func zvoSortedKeys[V any](m map[string]V) []string {
 	return ks
 }
 
-// zvoTune: the route package pre-sizes its global BGPPathA cache to 100000
-// entries, which every GC cycle has to scan; the harnesses allocate many small
-// short-lived objects, so let the heap grow further between cycles.
-func zvoTune() { debug.SetGCPercent(1500) }
+// zvoTune: measured on one C11 universe, GOGC=200 is the fastest setting (the
+// global BGPPathA cache is pre-sized to 100000 entries and scanned by every GC
+// cycle; much larger values lose more on fresh-span initialisation than they gain).
+func zvoTune() {
+	if os.Getenv("GOGC") == "" {
+		debug.SetGCPercent(200)
+	}
+}
